@@ -31,6 +31,10 @@ type c12Sel struct {
 	// Empty selects how "no preference" is expressed when Prefs is empty: 0 nil, 1 an
 	// empty non-nil slice, 2 a longer slice resliced to length 0
 	Empty int `json:",omitempty"`
+	// FaultAt > 0: the FaultAt-th Get Channel Cipher Suites request (1-based, so a later
+	// list index when > 1) is answered with completion code FaultCode instead of data
+	FaultAt   int `json:",omitempty"`
+	FaultCode int `json:",omitempty"`
 }
 
 type c12Ans struct {
@@ -136,6 +140,9 @@ func c12Exec(run *ev.Run, c ev.Case) {
 			for i := b.From; i < b.To && i < len(lists); i++ {
 				for adv := 0; adv < 64; adv++ {
 					c12Select(run, c12Sel{Prefs: lists[i], Advertised: adv, Shuffle: int(b.Seed) + i + adv})
+					if len(lists[i]) != 1 && (i+adv)%3 == 0 {
+						c12Select(run, c12Sel{Prefs: lists[i], Advertised: adv, Shuffle: int(b.Seed) + i + adv, FaultAt: 1 + (i+adv)%4, FaultCode: []int{0xff, 0xc1, 0xcc, 0xd4, 0x80}[(i+adv)%5]})
+					}
 					if len(lists[i]) == 0 {
 						c12Select(run, c12Sel{Prefs: lists[i], Advertised: adv, Shuffle: int(b.Seed) + i + adv, Empty: 1})
 						c12Select(run, c12Sel{Prefs: lists[i], Advertised: adv, Shuffle: int(b.Seed) + i + adv, Empty: 2})
@@ -266,6 +273,23 @@ func c12Records(adv int, shuffle int) []refbmc.SuiteRecord {
 		k := shuffle % len(recs)
 		recs = append(recs[k:], recs[:k]...)
 	}
+	if shuffle%3 == 0 && len(recs) > 0 {
+		// some suites are advertised more than once: under the standard ID and again under an
+		// OEM ID (as the BMCs the library's own parser test vector comes from do)
+		var dup []refbmc.SuiteRecord
+		for i, rec := range recs {
+			dup = append(dup, rec)
+			if (i+shuffle)%2 == 0 {
+				d := rec
+				d.ID, d.OEM, d.IANA = rec.ID|0x80, true, 0x002a7c
+				dup = append(dup, d)
+				if shuffle%5 == 0 {
+					dup = append(dup, d)
+				}
+			}
+		}
+		recs = dup
+	}
 	return recs
 }
 
@@ -278,6 +302,20 @@ func c12Select(run *ev.Run, s c12Sel) {
 	e := NewEnv(cfg, memtr.Window)
 	server := &refbmc.CipherSuiteServer{Channel: 1, Data: refbmc.EncodeSuiteRecords(c12Records(s.Advertised, s.Shuffle))}
 	e.BMC.Handler = refbmc.Chain(server.Handle)
+	armed := false
+	if s.FaultAt > 0 {
+		nreq := 0
+		e.BMC.Handler = refbmc.Chain(func(evn *refbmc.Event) (byte, []byte, bool) {
+			if armed && evn.NetFn == 6 && evn.Cmd == 0x54 {
+				nreq++
+				if nreq == s.FaultAt {
+					server.Requests = append(server.Requests, 0xee)
+					return byte(s.FaultCode), nil, true
+				}
+			}
+			return 0, nil, false
+		}, server.Handle)
+	}
 	var prefs []ipmi.CipherSuite
 	for _, i := range s.Prefs {
 		prefs = append(prefs, libSuite(c12U[i]))
@@ -323,6 +361,7 @@ func c12Select(run *ev.Run, s c12Sel) {
 		e.BMC.ResetLog()
 		server.Requests = nil
 	}
+	armed = true
 	ctx, cancel := e.LimitCtx(40)
 	defer cancel()
 	var sess *bmc.V2Session
@@ -351,6 +390,14 @@ func c12Select(run *ev.Run, s c12Sel) {
 		run.Event(evn.Kind, 1)
 	}
 	run.Nontrivial(fmt.Sprintf("sel %v %d %d %v", s.Prefs, s.Advertised, s.Empty, used))
+	if s.FaultAt > 0 && wantDiscovery && disc >= s.FaultAt {
+		// discovery did not complete: there is no list to choose from, so nothing may be proposed
+		run.Nontrivial(fmt.Sprintf("sel-fault %v %d %d/%#x", s.Prefs, s.Advertised, s.FaultAt, s.FaultCode))
+		if err == nil || sess != nil || opens != 0 {
+			run.Violation("C12:proposal-from-incomplete-discovery", fmt.Sprintf("%s: Get Channel Cipher Suites request %d was refused with %#x, yet the library went on (err=%v, %d Open Session Requests, proposal %v)", desc, s.FaultAt, s.FaultCode, err, opens, proposal), cs, nil)
+		}
+		return
+	}
 	if (disc > 0) != wantDiscovery {
 		run.Violation("C12:discovery-use", fmt.Sprintf("%s: %d Get Channel Cipher Suites requests, discovery expected: %v", desc, disc, wantDiscovery), cs, nil)
 		return
